@@ -17,7 +17,7 @@ def main():
         print(log[-3000:]); print("SETUP: model build failed"); sys.exit(1)
     specs = [("text_h", vlib.cfg_flags(c), {}) for c in ("10001", "11111", "10101", "10011", "01001", "00111")]
     specs += [("doc_h", vlib.cfg_flags(c), {}) for c in ("10001", "10000", "11111")]
-    specs += [("num_h", vlib.cfg_flags("10001"), {})]
+    specs += [("num_h", vlib.cfg_flags("10001"), {}), ("hist_h", vlib.cfg_flags("10001"), {}), ("pool_h", vlib.cfg_flags("10001"), {})]
     for (exe, log) in vlib.build_harnesses(specs):
         if not exe:
             print(log[-3000:]); print("SETUP: harness build failed"); sys.exit(1)
